@@ -195,6 +195,7 @@ func (fs *Filespace) Writer(destPath string) (writer filesystem.Writer, err erro
 	}
 	// the file's data lock is taken after the directory lock has been released: a
 	// goroutine that holds an open handle must not block writers of sibling files
+	verifPoint("writer.filelock", destPath)
 	handler := NewFileHandler(file)
 	// a writer replaces the old content (the handler holds the data lock)
 	file.time = time.Now()
@@ -265,6 +266,7 @@ func (fs *Filespace) WriteFile(destPath string, data []byte, filemode os.FileMod
 	}
 	dir.Lock()
 	defer dir.Unlock()
+	verifPoint("writefile.dirlocked", destPath)
 	if node, err = dir.getNode(destNodeName); err != nil {
 		file = NewFile(destNodeName, filesystem.DefaultUnixFileMode, time.Now(), append([]byte{}, data...))
 		return dir.addNode(file)
